@@ -7,7 +7,7 @@ dominator trees.  "X dominates Y" is decided as "on every explored path Y is pre
 X", which is robust against if<->switch, extracted helpers and reordered independent
 statements.
 """
-from ..interp import Interp, Obj, Sym, Arr, View, Cell, Term, NoReturn, Infeasible, Unsupported, _Ref, vkey
+from ..interp import Obj, Sym, Arr, View
 from ..build import AnalysisBroken
 from .. import lib_c14 as L
 
@@ -16,6 +16,8 @@ U = 'main.c'
 TMP_CREATE = ('mkstemp', 'mkostemp', 'mkstemps', 'mkostemps', 'mkdtemp', 'tmpfile', 'tmpnam', 'tmpnam_r', 'tempnam', 'mktemp')
 PATH_CREATE = ('open', 'openat', 'creat', 'open64', 'creat64', 'freopen', 'mkdir', 'mkfifo', 'mknod', 'symlink', 'link', 'rename')
 OUTPUT_GLOBALS = ('output_file', 'opt_o')       # user-visible output path of a cc1 process
+DEP_GLOBALS = ('opt_MF',)                        # dependency file (-MF)
+DEP_NAME_FNS = ('replace_extn',)                 # ... or derived from the input name (-MD)
 SUBPROC = ('run_cc1', 'assemble', 'run_linker')
 
 
@@ -59,8 +61,13 @@ class Agg:
         self.seen[k] = 1
         return self.rep.ob(rule, key, ok, what, where=where, facts=facts)
 
-    def undecided(self, *a, **kw):
-        return self.rep.undecided(*a, **kw)
+    def undecided(self, rule, key, why, where=None):
+        k = (rule, key, None)
+        if k in self.seen:
+            self.seen[k] += 1
+            return
+        self.seen[k] = 1
+        return self.rep.undecided(rule, key, why, where=where)
 
     def rule(self, *a, **kw):
         return self.rep.rule(*a, **kw)
@@ -72,7 +79,7 @@ def _fmt_path(ctx, n=10):
 
 def run(P, rep, tier):
     u = P.unit(U)
-    for f in ('main', 'run_subprocess', 'cc1'):
+    for f in ('main', 'cc1'):
         if f not in u.functions:
             raise AnalysisBroken('anchor function %s vanished from %s' % (f, U))
     rep.explanation = ('Code-shape conditions that make failure handling and cleanup of the driver work on every path of main.c: '
@@ -97,7 +104,7 @@ def run(P, rep, tier):
     steps = [('R14.1who', lambda: r141_who(P, u, rep, cg, reach_main, facts)),
              ('R14.2', lambda: r142(P, u, rep, cg, facts)),
              ('R14.1paths', lambda: r141_paths(P, u, rep, cg, facts)),
-             ('R14.3/4', lambda: r143_r144(P, u, rep, cg, reach_main)),
+             ('R14.3/4', lambda: r143_r144(P, u, rep, cg, reach_main, facts)),
              ('R14.5', lambda: r145(P, u, rep, cg)),
              ('R14.6', lambda: r146(P, u, rep, cg, facts)),
              ('R14.7', lambda: r147(P, rep, cg))]
@@ -202,8 +209,6 @@ def r142(P, u, rep, cg, facts):
             for s in body.inner:
                 if s is top:
                     break
-                if L.has_early_exit(s):
-                    before_bad.append('an early return')
                 for cc in s.calls():
                     cal = cc.callee()
                     if cal in tmp_reach or cal in TMP_CREATE:
@@ -278,8 +283,6 @@ def r141_paths(P, u, rep, cg, facts):
     for fn in sorted(facts.get('tmp_fns', ())):
         if fn not in u.functions:
             continue
-        created = {}
-
         def m_mkstemp(it, ctx, n, args):
             i = ctx.choose(2, 'mkstemp')
             st = L.proc_state(ctx)
@@ -345,7 +348,7 @@ def _nonzero_exit(out):
 
 
 # ============================================================ R14.3 / R14.4 ===
-def r143_r144(P, u, rep, cg, reach_main):
+def r143_r144(P, u, rep, cg, reach_main, facts):
     rep.rule('R14.3', 'outside the forked child the process ends only through exit()/return from main (atexit handlers run); inside the child only through exec* or _exit (the child never runs the parent\'s handlers, never continues the driver)', floor=3)
     rep.rule('R14.4', 'on every path from fork to the return the wait status is read, every non-zero status (exit code or signal) ends the driver with a non-zero status, success continues, and a failed fork is fatal', floor=4)
     fork_fns = {}
@@ -353,6 +356,7 @@ def r143_r144(P, u, rep, cg, reach_main):
         for (cu, caller, call) in cg.sites.get(name, ()):
             if caller in reach_main:
                 fork_fns.setdefault(caller, cu)
+    facts['fork_fns'] = set(fork_fns)
     if not fork_fns:
         rep.undecided('R14.3', '%s:fork' % U, 'no reachable call of fork(): the subprocess anchor vanished')
         return
@@ -501,13 +505,18 @@ def r145(P, u, rep, cg):
                 mode = args[1] if len(args) > 1 else None
                 if name.startswith('fopen') and isinstance(mode, str) and not (mode[:1] in ('w', 'a') or '+' in mode):
                     continue
-                g = _root_global(args[0]) if args else None
+                pv = args[0] if args else None
+                g = _root_global(pv)
+                if g in DEP_GLOBALS or (isinstance(pv, Sym) and pv.name.split('#')[0] in DEP_NAME_FNS):
+                    continue        # dependency file of -MD/-MF: a secondary output, written after preprocessing by design
                 if g not in OUTPUT_GLOBALS:
+                    rep.undecided('R14.5', '%s:cc1:open-of-%s' % (U, g or 'computed-name'),
+                                  'a file named by %r is opened for writing in the cc1 process: not one of the known output names (%s) or dependency-file names (%s)'
+                                  % (pv, '/'.join(OUTPUT_GLOBALS), '/'.join(DEP_GLOBALS + DEP_NAME_FNS)), where='%s:%d' % (U, e[3]))
                     continue
                 n_out += 1
                 later = [x for x in evs[i + 1:] if x[1] in may_fail or x[1] in terminators]
                 later = [x for x in later if x[1] not in ('fopen', 'fopen64')]
-                ended = out[0] == 'noreturn' and out[1] in L.ERROR_FNS and out[3] != e[3]
                 names = sorted(set(x[1] for x in later))
                 ok = not later
                 site = L.outer_site(ctx, e)
@@ -549,12 +558,16 @@ def _m_strarray_push(it, ctx, n, args):
 def r146(P, u, rep, cg, facts):
     rep.rule('R14.6', 'per input: cc1 runs before the assembler on the temporary it wrote, every stage goes through run_subprocess, the linker runs once after all inputs; `-o` with several inputs and -c/-S/-E is rejected before any subprocess', floor=6)
     # every stage launcher runs the subprocess on every returning path
+    launchers = sorted(facts.get('fork_fns', ()))
+    if not launchers:
+        rep.undecided('R14.6', '%s:launcher' % U, 'no function that forks was found (R14.3)')
+        return
     for fn in SUBPROC:
         if fn not in u.functions:
             rep.undecided('R14.6', '%s:%s:vanished' % (U, fn), 'pipeline stage function %s vanished' % fn)
             continue
         try:
-            it = L.make_interp(P, u, opaque=['run_subprocess', 'find_libpath', 'find_gcc_libpath', 'strarray_push', 'format'], loop_limit=1)
+            it = L.make_interp(P, u, opaque=launchers + ['find_libpath', 'find_gcc_libpath', 'strarray_push', 'format'], loop_limit=1)
             paths = it.explore(fn, lambda ctx: [])
         except AnalysisBroken as e:
             rep.undecided('R14.6', '%s:%s:interpretation' % (U, fn), str(e))
@@ -564,7 +577,7 @@ def r146(P, u, rep, cg, facts):
             if out[0] != 'ret':
                 continue
             nret += 1
-            k = len(L.calls_of(ctx, 'run_subprocess'))
+            k = len(L.calls_of(ctx, launchers))
             rep.ob('R14.6', '%s:%s:%s' % (U, fn, 'runs-subprocess-once' if k == 1 else ('no-subprocess' if k == 0 else 'several-subprocesses')), k == 1,
                    '%s returns after launching %d subprocesses: the stage is skipped (or repeated) silently' % (fn, k), where=_where(u.fn(fn)), facts={'path': _fmt_path(ctx)})
         if nret == 0:
@@ -615,6 +628,19 @@ def r146(P, u, rep, cg, facts):
             name, args = e[1], e[2]
             if name == 'run_cc1':
                 n_cc1 += 1
+            # intermediate files must have per-invocation names (mkstemp) or be derived from the command line
+            inter = []
+            if name == 'run_cc1' and len(args) >= 4:
+                inter = [('cc1 output', args[3])]
+            elif name == 'assemble' and len(args) >= 2:
+                inter = [('assembler input', args[0]), ('assembler output', args[1])]
+            elif name == 'strarray_push' and len(args) >= 2 and isinstance(args[0], Obj) and not _root_global(args[0]):
+                inter = [('linker input', args[1])]
+            for role, v in inter:
+                fixed = isinstance(v, str)
+                rep.ob('R14.6', '%s:main:%s' % (U, ('fixed-name-for-%s' % role.replace(' ', '-')) if fixed else 'intermediate-names-are-per-invocation'), not fixed,
+                       'the %s is the fixed file name %r: two chibicc processes running at the same time overwrite each other\'s intermediate file, and nothing unlinks it' % (role, v),
+                       where='%s:%d' % (U, e[3]), facts={'path': _fmt_path(ctx)})
             if name == 'assemble' and len(args) >= 2 and is_tmp(args[0]):
                 n_asm_tmp += 1
                 prod = [x for x in evs[:i] if x[1] == 'run_cc1' and len(x[2]) >= 4 and x[2][3] is args[0]]
